@@ -8,8 +8,11 @@ library later reports.  All UIDs are deterministic functions of the PRNG handed 
     content_tree(r, pool, ...)       -> (root ContainerContentItem, spec)
     evidence_list(r, pool, refs,...) -> (list of datasets, mode string)
 
-spec of an item: {'id': n, 'vt': 'IMAGE', 'name': (value, scheme), 'rel': 'CONTAINS'|None,
-                  'ref': (cls, inst)|None, 'has_seq': bool, 'children': [spec, ...]}
+spec of an item: {'id': n, 'vt': 'IMAGE', 'name': (value, scheme[, version]), 'rel': 'CONTAINS'|None,
+                  'ref': (cls, inst)|None, 'has_seq': bool, 'children': [spec, ...],
+                  'codes': [(role, form, {keyword: stored string})]  role = name|value|unit|qualifier, form in CODE_FORMS}
+content_tree(..., code_rng=<PRNG>) draws every coded name / value / unit / qualifier in one of CODE_FORMS (scheme version, long
+code value > 16 characters, URN code value, context group attributes); without it all codes are plain (as before).
 """
 from __future__ import annotations
 
@@ -85,10 +88,52 @@ _NAMES = [('121071', 'DCM', 'Finding'), ('121070', 'DCM', 'Findings'), ('111001'
 _RELS = ['CONTAINS', 'HAS OBS CONTEXT', 'HAS CONCEPT MOD', 'HAS PROPERTIES', 'INFERRED FROM', 'HAS ACQ CONTEXT']
 
 
-def _name(r):
+CODE_FORMS = ['plain', 'version', 'long', 'long+version', 'urn', 'urn+version', 'context']
+_LONG = ['12345678901234567', 'T-A0100-AND-SOMETHING-LONGER', '99999999999999999999.1']        # 17, 28, 22 characters (> 16)
+_URN = ['urn:oid:1.2.826.0.1.3680043.8.498.77', 'http://example.org/codes#finding-7', 'urn:uuid:6e8bc430-9c3a-11d9-9669-0800200c9a66']
+_VERS = ['2020', '4.1', '23.04d', '20200101', '01']
+
+
+def coded(cr, base, form=None, role='name'):
+    """A CodedConcept in one of CODE_FORMS built on the (value, designator, meaning) triple `base`; returns (concept, stored)
+    where `stored` is the plain dict keyword -> string of every attribute the code sequence item must carry from now on
+    (construction parameters; the oracle compares the stored attributes of every code sequence item with it)."""
     from highdicom.sr import CodedConcept
+    v, s, m = base
+    if form is None:
+        form = 'plain' if cr is None else cr.choice(['plain'] * 6 + CODE_FORMS[1:])
+    ver = None
+    if form.startswith('long'):
+        v, s = (cr.choice(_LONG) if cr is not None else _LONG[0]), '99VERIF'
+    elif form.startswith('urn'):
+        v, s = (cr.choice(_URN) if cr is not None else _URN[0]), '99VERIF'
+    if form.endswith('version'):
+        ver = cr.choice(_VERS) if cr is not None else _VERS[0]
+    c = CodedConcept(value=v, scheme_designator=s, meaning=m, scheme_version=ver)
+    kw = 'LongCodeValue' if form.startswith('long') else 'URNCodeValue' if form.startswith('urn') else 'CodeValue'
+    stored = {kw: v, 'CodingSchemeDesignator': s, 'CodeMeaning': m}
+    if ver is not None:
+        stored['CodingSchemeVersion'] = ver
+    if form == 'context':
+        # attributes of the enhanced encoding mode / context group identification: part of the code sequence item as well
+        c.ContextIdentifier = '4'
+        c.MappingResource = 'DCMR'
+        c.ContextGroupVersion = '20200101'
+        stored.update(ContextIdentifier='4', MappingResource='DCMR', ContextGroupVersion='20200101')
+    return c, stored, form
+
+
+def _name(r, cr=None, rec=None):
+    """coded name; with a code PRNG `cr` in any of CODE_FORMS.  spec name = (value, designator[, version]): the version is
+    part of a code's identity (pydicom Code equality), so it is part of what a name query has to match."""
     v, s, m = r.choice(_NAMES)
-    return CodedConcept(value=v, scheme_designator=s, meaning=m), (v, s)
+    c, stored, form = coded(cr, (v, s, m))
+    if rec is not None:
+        rec.append(('name', form, stored))
+    nm = (stored.get('CodeValue') or stored.get('LongCodeValue') or stored.get('URNCodeValue'), stored['CodingSchemeDesignator'])
+    if 'CodingSchemeVersion' in stored:
+        nm += (stored['CodingSchemeVersion'],)
+    return c, nm
 
 
 class _Ids:
@@ -104,13 +149,23 @@ def _leaf(r, pool, ids, rel, opts):
     """One non-container item (may itself carry children: SCOORD -> SELECTED FROM image, NUM -> INFERRED FROM image)."""
     from highdicom import sr
     from pydicom.sr.codedict import codes
-    name, nm = _name(r)
+    cr = opts.get('code_rng')
+    rec = []
+    name, nm = _name(r, cr, rec)
+
+    def code_of(c, role):
+        """the pydicom Code `c`, or (with a code PRNG) the same concept in one of CODE_FORMS"""
+        if cr is None:
+            return c
+        cc, stored, form = coded(cr, (c.value, c.scheme_designator, c.meaning))
+        rec.append((role, form, stored))
+        return cc
     kinds = ['TEXT', 'CODE', 'NUM', 'NUM', 'UIDREF', 'IMAGE', 'IMAGE', 'COMPOSITE', 'SCOORD', 'PNAME', 'DATE', 'TIME', 'DATETIME',
              'TCOORD', 'WAVEFORM']
     if opts.get('scoord3d'):
         kinds += ['SCOORD3D'] * opts.get('scoord3d_weight', 1)
     vt = r.choice(kinds)
-    spec = {'id': ids.next(), 'vt': vt, 'name': nm, 'rel': rel, 'ref': None, 'has_seq': False, 'children': []}
+    spec = {'id': ids.next(), 'vt': vt, 'name': nm, 'rel': rel, 'ref': None, 'has_seq': False, 'children': [], 'codes': rec}
 
     def pick(image):
         """instance to reference: usually from the pool (repeats likely), sometimes not supplied anywhere"""
@@ -123,13 +178,16 @@ def _leaf(r, pool, ids, rel, opts):
     if vt == 'TEXT':
         it = sr.TextContentItem(name=name, value=f'text {spec["id"]}', relationship_type=rel)
     elif vt == 'CODE':
-        it = sr.CodeContentItem(name=name, value=codes.SCT.Liver if r.random() < 0.5 else codes.SCT.Kidney, relationship_type=rel)
+        it = sr.CodeContentItem(name=name, value=code_of(codes.SCT.Liver if r.random() < 0.5 else codes.SCT.Kidney, 'value'),
+                                relationship_type=rel)
     elif vt == 'NUM':
         # every optional argument: a qualifier code that differs from the unit code
         qual = r.choice([None, codes.DCM.NotANumber if hasattr(codes.DCM, 'NotANumber') else codes.SCT.Liver,
                          sr.CodedConcept(value='114006', scheme_designator='DCM', meaning='Measurement failure')])
-        it = sr.NumContentItem(name=name, value=r.randint(-50, 50) / 4, unit=r.choice([codes.UCUM.Millimeter, codes.UCUM.Centimeter]),
-                               qualifier=qual, relationship_type=rel)
+        unit = code_of(r.choice([codes.UCUM.Millimeter, codes.UCUM.Centimeter]), 'unit')
+        if qual is not None:
+            qual = code_of(qual, 'qualifier')
+        it = sr.NumContentItem(name=name, value=r.randint(-50, 50) / 4, unit=unit, qualifier=qual, relationship_type=rel)
     elif vt == 'TIME':
         it = sr.TimeContentItem(name=name, value='1%d3000' % r.randint(0, 9), relationship_type=rel)
     elif vt == 'DATETIME':
@@ -180,11 +238,12 @@ def _leaf(r, pool, ids, rel, opts):
                                   fiducial_uid=r.choice([None, uid(r, 'fid')]), relationship_type=rel)
         # reference nested below a non-container item
         cls, inst = pick(True)
-        child = sr.ImageContentItem(name=_name(r)[0], referenced_sop_class_uid=cls, referenced_sop_instance_uid=inst,
+        crec = []
+        cname, cnm = _name(r, cr, crec)
+        child = sr.ImageContentItem(name=cname, referenced_sop_class_uid=cls, referenced_sop_instance_uid=inst,
                                     relationship_type='SELECTED FROM')
-        cspec = {'id': ids.next(), 'vt': 'IMAGE', 'name': None, 'rel': 'SELECTED FROM', 'ref': (cls, inst),
-                 'has_seq': False, 'children': []}
-        cspec['name'] = (child.ConceptNameCodeSequence[0].CodeValue, child.ConceptNameCodeSequence[0].CodingSchemeDesignator)
+        cspec = {'id': ids.next(), 'vt': 'IMAGE', 'name': cnm, 'rel': 'SELECTED FROM', 'ref': (cls, inst),
+                 'has_seq': False, 'children': [], 'codes': crec}
         it.ContentSequence = sr.ContentSequence([child])
         spec['has_seq'] = True
         spec['children'] = [cspec]
@@ -214,7 +273,8 @@ def _leaf(r, pool, ids, rel, opts):
 
 def _container(r, pool, ids, rel, depth, opts):
     from highdicom import sr
-    name, nm = _name(r)
+    rec = []
+    name, nm = _name(r, opts.get('code_rng'), rec)
     # template identification and continuity vary (roots: any template incl. TID 1500, which takes the
     # MeasurementReport branch of the parser; nested: group templates, private ids)
     if rel is None:
@@ -232,7 +292,7 @@ def _container(r, pool, ids, rel, depth, opts):
             it.ObservationUID = uid(r, 'obs')
             attrs.append('ObservationUID')
     spec = {'id': ids.next(), 'vt': 'CONTAINER', 'name': nm, 'rel': rel, 'ref': None, 'has_seq': False, 'children': [],
-            'attrs': attrs}
+            'attrs': attrs, 'codes': rec}
     fan = r.choice(opts.get('fanouts', [0, 1, 2, 2, 3, 3, 4, 5]))
     if rel is None and fan == 0 and not opts.get('allow_empty_root'):
         fan = 1
